@@ -167,26 +167,40 @@ def run(tier):
             "BVRepeat": (-1, 0, 1, 2)}
     ncalls = 0
 
+    def safe_type(f):
+        try:
+            return str(f.get_type())
+        except Exception as ex:   # noqa
+            return "<get_type raised %s>" % type(ex).__name__
+
     def judge(name, argdesc, thunk):
         nonlocal ncalls
         ncalls += 1
         try:
             f = thunk()
         except Exception:
+            # a rejected application must stay rejected when it is attempted again
+            try:
+                f2 = thunk()
+            except Exception:
+                return
+            chk.violation({"kind": "history", "what": "%s%s raised on the first attempt but returned %s on the second"
+                           % (name, argdesc, f2.serialize()), "repro": "call FormulaManager.%s twice on arguments of sorts %s" % (name, argdesc)},
+                          key="ctor2:%s:%s" % (name, argdesc))
             return
         chk.count(("ctor", name, argdesc))
         try:
             t = refeval.type_of(f)
         except refeval.IllTyped as ex:
             chk.violation({"kind": "input", "what": "%s%s returned the ill-typed formula %s (reported type %s): %s"
-                           % (name, argdesc, f.serialize(), f.get_type(), ex),
+                           % (name, argdesc, f.serialize(), safe_type(f), ex),
                            "repro": "FormulaManager.%s on arguments of sorts/values %s" % (name, argdesc)},
                           key="ctor:%s:%s" % (name, argdesc))
             return
         except refeval.Unsupported:
             return
-        if t != f.get_type():
-            chk.violation({"kind": "input", "what": "%s%s: reported type %s, derived type %s" % (name, argdesc, f.get_type(), t),
+        if str(t) != safe_type(f):
+            chk.violation({"kind": "input", "what": "%s%s: reported type %s, derived type %s" % (name, argdesc, safe_type(f), t),
                            "formula": f.serialize()}, key="ctortype:%s:%s" % (name, argdesc))
 
     def variants(t):
